@@ -39,8 +39,8 @@ _FLAGNAMES = [(n, getattr(W, n)) for n in ('CASE', 'IGNORECASE', 'RAWCHARS', 'NE
 
 
 def flagnames(flags):
-    """'|NAME|NAME|' (sorted as declared) - used by known-finding predicates."""
-    return '|' + '|'.join(n for n, v in _FLAGNAMES if flags & v) + '|'
+    """'|NAME|NAME|' (sorted as declared) - used by known-finding predicates. MARK / SCANDOTDIR are glob-level bits."""
+    return '|' + '|'.join([n for n, v in _FLAGNAMES if flags & v] + [n for n, v in (('MARK', 0x1000000), ('SCANDOTDIR', 0x2000000)) if flags & v]) + '|'
 
 
 def replay_fn(api, pattern, flags, extra=''):
